@@ -168,6 +168,7 @@ class W:
         self.disclosures: dict[str, list] = {"B": [], "D": []}     # recorded disclosure datagrams per sender
         self.used_h = 0
         self.used_n = 0
+        self.withheld = b""               # tokens D left out of its last disclosure
         self.viol: list = []
         self.judged = 0                   # index into sim.wire_log up to which sends were judged
         self.cut = 0
@@ -290,6 +291,10 @@ class Model(core.BfsModel):
             # is the JSON list [k] (the attester's checks raise on it; k varies the order the two are looked at); the
             # datagram is delivered twice
             al += [("dis", "own", f"poisoned-sibling:{k}", "none") for k in range(4)]
+        if "withheld" in g:
+            # D discloses a genuine new credential but withholds the token underneath it; `mr`: D hands that token in
+            # later (a MissingResponse nobody asked for any more)
+            al += [("dis", "own", "withheld-parent", "none"), ("mr", "D")]
         self.alphabet = al
 
     def params(self) -> dict:
@@ -330,6 +335,12 @@ class Model(core.BfsModel):
             elif kind == "cattest":
                 if not w.channel["T"].attestation_requests:
                     continue
+            elif kind == "mr":
+                if not w.withheld:
+                    continue
+            elif kind == "dis" and ev[2] == "withheld-parent":
+                if w.withheld:
+                    continue
             out.append(i)
         return out
 
@@ -369,6 +380,8 @@ class Model(core.BfsModel):
                 self._record_request(w, s, before, (0, 0, "self-attested"))
         elif kind == "dis":
             self._dishonest_disclosure(w, *ev[1:])
+        elif kind == "mr":
+            w.inject("D", "T", w.pack("D", MissingResponsePayload(w.withheld)))
         elif kind == "creq":
             # D asks T for an attestation of attribute "n1" through its CommunicationChannel
             self._use(w, 0, 0)
@@ -467,6 +480,14 @@ class Model(core.BfsModel):
         """
         o = w.ov["D"]
         self._use(w, 0, 0)
+        if defect == "withheld-parent":
+            # an earlier credential of D (over something else): the new credential's token is chained after its token
+            first = w.sim.nodes["D"].run(o.self_advertise, bytes([0xF3]) * 32, "other", "id_metadata", None)
+            if first is None:
+                return
+            w.chain["D"].created(first.metadata.token_pointer)
+            w.labels[first.metadata.token_pointer] = ("tok", "D", len(w.chain["D"].tokens) - 1, "withheld")
+            w.labels[first.metadata.get_hash()] = ("md", "D", len(w.chain["D"].tokens) - 1, "withheld")
         cred = w.sim.nodes["D"].run(o.self_advertise, HASHES[0], NAMES[0], "id_metadata", None)
         if cred is None:
             return
@@ -492,6 +513,12 @@ class Model(core.BfsModel):
             metadata = metadata[:-1] + bytes([metadata[-1] ^ 1])
             for h, *_ in refm.parse_metadata(metadata, w.slen):
                 w.labels[h] = ("md-altered", "D", idx)
+        elif defect == "withheld-parent":
+            own = o.pseudonym_manager.tree.elements[pointer].get_plaintext_signed()
+            size = len(own)
+            w.withheld = b"".join(tokens[i:i + size] for i in range(0, len(tokens), size) if tokens[i:i + size] != own)
+            tokens = own
+            o.permissions[w.peer_of("D", "T")] = 0        # D does not hand the rest out when asked either
         elif defect.startswith("poisoned-sibling:"):
             tree = o.pseudonym_manager.tree
             tok2 = tree.add_by_hash(bytes([0xF2]) * 32, tree.elements[pointer])
@@ -645,7 +672,7 @@ class Model(core.BfsModel):
     # -- digest ------------------------------------------------------------------------------------------------------
     def digest(self, w: W):  # noqa: ANN201
         L, kn, now = w.label, w.kn, w.now()
-        out: list = [w.used_h, w.used_n]
+        out: list = [w.used_h, w.used_n, len(w.withheld)]
         for n in NODES:
             ov = w.ov[n]
             db = ov.identity_manager.database
@@ -680,7 +707,9 @@ class Model(core.BfsModel):
                 tuple(L(h) for h in w.chain[n].tokens), tuple(sorted((kn(k), i) for k, i in w.chain[n].opened.items())),
                 tuple(sorted((kn(k), repr(L(a[:32])), refm.sig_ok(k, a[32:], a[:32])) for k, a in w.attest_received[n])),
             )
-            out.append((n, table, tuple(toks), tuple(mds), tuple(atts), tuple(pseudonyms), own, addrs, ref))
+            # every other plain attribute of the overlay object (a table or stamp somebody adds there is state as well)
+            extra = tuple(sorted((k, repr(_plain(v, w, now))) for k, v in vars(ov).items() if k not in _COVERED_ATTRS))
+            out.append((n, table, tuple(toks), tuple(mds), tuple(atts), tuple(pseudonyms), own, addrs, ref, extra))
         out.append(tuple((s, tuple(L(refm.parse_metadata(w.decode(dg.data).payload.metadata, w.slen)[0][0])
                                    for dg in w.disclosures[s])) for s in ("B", "D")))
         for n, ch in sorted(w.channel.items()):
@@ -763,6 +792,9 @@ def configs(ctx: core.Ctx) -> list[tuple[Model, int]]:
     # attestation, token or metadata by signing it again
     legacy = _cfg(hashes=1, names=1, reg_keys=["B"], reg_md=[0], req_subjects=["B"], req_extra=[0], time=[299],
                   groups=["replay", "remeta"], max_replay=2, curve="low")
+    # a disclosure that withholds the token underneath the credential, the rest handed in after the five minutes
+    withheld = _cfg(hashes=1, names=1, reg_keys=["D"], reg_md=[0], req_subjects=[], req_extra=[], time=[299, 301],
+                    groups=["withheld"])
     full = _cfg()
     if ctx.thorough:
         return [
@@ -772,6 +804,7 @@ def configs(ctx: core.Ctx) -> list[tuple[Model, int]]:
             (Model("fields-2x2", _cfg(hashes=1, reg_keys=["B"], req_subjects=["B"], groups=["replay"]), s), 5),
             (Model("tokens", tokens, s), 5),
             (Model("shared", shared, s), 5),
+            (Model("withheld", withheld, s), 6),
             (Model("legacy-low", legacy, s), 5),
             (Model("legacy-high", {**legacy, "curve": "high"}, s), 4),
             (Model("forged", {**forged, "time": [301], "groups": ["dis", "replay"]}, s), 3),
@@ -783,10 +816,39 @@ def configs(ctx: core.Ctx) -> list[tuple[Model, int]]:
         (Model("tokens", tokens, s), 4),
         (Model("shared", shared, s), 4),
         (Model("legacy-low", legacy, s), 4),
+        (Model("withheld", withheld, s), 5),
         (Model("forged", forged, s), 3),
         (Model("channel", channel, s), 5),
         (Model("full", full, s), 3),
     ]
+
+
+_COVERED_ATTRS = {"known_attestation_hashes", "token_chain", "metadata_chain", "permissions", "identity_manager",
+                  "pseudonym_manager", "endpoint", "network", "my_peer", "request_cache", "decode_map", "logger",
+                  "serializer", "crypto", "bootstrappers", "max_peers", "_prefix", "_pending_tasks", "_task_lock",
+                  "_shutdown", "_counter", "_logger", "_checker", "_shutdown_tasks", "_discovered_lan_addresses",
+                  "last_bootstrap", "my_estimated_wan", "my_estimated_lan", "my_preferred_address", "settings",
+                  "global_time", "decode_map_private", "_use_main_thread", "anonymize", "strategies", "on_packet"}
+
+
+def _plain(v, w, now, depth: int = 0):  # noqa: ANN001, ANN202
+    """Canonical form of plain data: hashes and keys as labels, wall-clock stamps as (capped) ages; objects by type."""
+    if isinstance(v, (bytes, bytearray)):
+        b = bytes(v)
+        return w.kn(b) if b in w.keyname else w.label(b)
+    if isinstance(v, bool) or v is None or isinstance(v, (int, str)):
+        return v
+    if isinstance(v, float):
+        return ("age", min(round(now - (v - seams.VClock.EPOCH), 3), EXPIRED)) if v > 1e9 else round(v, 6)
+    if depth > 3:
+        return type(v).__name__
+    if isinstance(v, dict):
+        return tuple(sorted(((repr(_plain(k, w, now, depth + 1)), repr(_plain(x, w, now, depth + 1))) for k, x in v.items())))
+    if isinstance(v, (list, tuple)):
+        return tuple(repr(_plain(x, w, now, depth + 1)) for x in v)
+    if isinstance(v, (set, frozenset)):
+        return tuple(sorted(repr(_plain(x, w, now, depth + 1)) for x in v))
+    return type(v).__name__
 
 
 def _perm(value, label):  # noqa: ANN001, ANN202
